@@ -14,6 +14,13 @@ HERE = os.path.dirname(os.path.dirname(os.path.abspath(__file__)))
 def main():
     only = sys.argv[1:]
     rows = []
+    path = os.path.join(HERE, 'mutants', 'AUDIT.md')
+    if only and os.path.exists(path):
+        # partial re-run: keep the rows of the properties that are not re-audited
+        for ln in open(path):
+            m = re.match(r'\| (C\d\d) \| (\S+) \| (\S+) \| (\S+) \| `(.*)` \|', ln)
+            if m and m.group(1) not in only:
+                rows.append(m.groups())
     for d in sorted(glob.glob(os.path.join(HERE, 'mutants', 'C*'))):
         pid = os.path.basename(d)
         if only and pid not in only:
@@ -28,7 +35,8 @@ def main():
             cell = re.search(r'cell (\S+)', line)
             rows.append((pid, os.path.basename(patch)[:-6], code, '%.0f' % (time.time() - t0), cell.group(1) if cell else ''))
             print(rows[-1], flush=True)
-    with open(os.path.join(HERE, 'mutants', 'AUDIT.md'), 'w') as f:
+    rows.sort(key=lambda r: (r[0], r[1]))
+    with open(path, 'w') as f:
         f.write('# Mutation audit (tools/mutation_audit.py)\n\nEach mutant is a small compiling edit of pedal that keeps the 493-test suite green '
                 '(`revert_fix_*` = the pre-fix behaviour of a repaired defect).\nexit 1 = detected by the quick check, 0 = missed, 3 = patch no longer applies.\n\n')
         f.write('| property | mutant | exit | seconds | first violating cell |\n|---|---|---|---|---|\n')
